@@ -38,3 +38,4 @@ import Tranp.Lemmas.AstPath.Depth
 import Tranp.Lemmas.AstPath.Find
 import Tranp.Lemmas.AstPath.Dsn
 import Tranp.Lemmas.AstPath.Load
+import Tranp.Lemmas.AstPath.Lookup
